@@ -99,6 +99,30 @@ fn cr_sub(store: &AnnotationStore, sel: &Selector, out: &mut Vec<String>) -> Opt
     Some(())
 }
 
+/// the target the row reader built, in the model's notation (identifiers as given)
+fn cr_builder(sb: &SelectorBuilder) -> Option<String> {
+    fn id<T: stam::Storable>(b: &BuildItem<T>) -> Option<String> { match b { BuildItem::Id(s) => Some(hex(s)), BuildItem::IdRef(s) => Some(hex(s)), _ => None } }
+    fn sub(sb: &SelectorBuilder) -> Option<String> {
+        Some(match sb {
+            SelectorBuilder::TextSelector(r, o) => format!("t {} {} {}", id(r)?, cr_cursor(&o.begin), cr_cursor(&o.end)),
+            SelectorBuilder::AnnotationSelector(a, None) => format!("a {} -", id(a)?),
+            SelectorBuilder::AnnotationSelector(a, Some(o)) => format!("a {} {} {}", id(a)?, cr_cursor(&o.begin), cr_cursor(&o.end)),
+            SelectorBuilder::ResourceSelector(r) => format!("r {}", id(r)?),
+            SelectorBuilder::DataSetSelector(d) => format!("s {}", id(d)?),
+            SelectorBuilder::DataKeySelector(d, k) => format!("k {} {}", id(d)?, id(k)?),
+            SelectorBuilder::AnnotationDataSelector(d, x) => format!("d {} {}", id(d)?, id(x)?),
+            _ => return None,
+        })
+    }
+    match sb {
+        SelectorBuilder::MultiSelector(v) | SelectorBuilder::CompositeSelector(v) | SelectorBuilder::DirectionalSelector(v) => {
+            let subs: Option<Vec<String>> = v.iter().map(sub).collect();
+            Some(format!("{} {} {}", match sb { SelectorBuilder::MultiSelector(_) => "CM", SelectorBuilder::CompositeSelector(_) => "CC", _ => "CX" }, v.len(), subs?.join(" ")).trim_end().to_string())
+        }
+        _ => Some(format!("S {}", sub(sb)?)),
+    }
+}
+
 fn cr_target(store: &AnnotationStore, sel: &Selector) -> Option<String> {
     let mut out: Vec<String> = vec![];
     match sel {
@@ -139,6 +163,36 @@ fn csv_rows_vs_model(rep: &mut Report, store: &AnnotationStore, sub: &std::path:
             let got: Vec<String> = (0..8).map(|k| hex(&cell(k))).collect();
             rep.count("csv:row-vs-model");
             rep.model_case_ctx(ctx.clone(), vec![line], vec![got.join(" ")], "csv-row");
+        }
+        // the READER on the same cells and on damaged ones (list entries dropped, added, blanked, cells swapped)
+        {
+            let cells: Vec<String> = (0..8).map(|k| cell(k)).collect();
+            let mut variants: Vec<Vec<String>> = vec![cells.clone()];
+            let seed = fnv(&cells.join("|"));
+            for k in 0..8usize {
+                let mut c = cells.clone(); if let Some(p) = c[k].rfind(';') { c[k].truncate(p); } else { c[k].clear(); } variants.push(c);
+                let mut c = cells.clone(); c[k].push_str(";x"); variants.push(c);
+                let mut c = cells.clone(); c[k].clear(); variants.push(c);
+                let parts: Vec<String> = cells[k].split(';').map(|x| x.to_string()).collect();
+                if parts.len() > 1 { let mut q = parts.clone(); q[1 + (seed as usize >> 7) % (parts.len() - 1)].clear(); let mut c = cells.clone(); c[k] = q.join(";"); variants.push(c); }
+            }
+            { let mut c = cells.clone(); c.swap(4, 5); variants.push(c); }
+            { let mut c = cells.clone(); c[0] = c[0].replace("TextSelector", "AnnotationSelector"); variants.push(c); }
+            { let mut c = cells.clone(); c[0] = c[0].replace("AnnotationSelector", "TextSelector"); variants.push(c); }
+            { let mut c = cells.clone(); c[0] = c[0].replace("ResourceSelector", "DataKeySelector"); variants.push(c); }
+            variants.dedup();
+            for c in variants {
+                let arr: [&str; 8] = [&c[0], &c[1], &c[2], &c[3], &c[4], &c[5], &c[6], &c[7]];
+                let got = match guarded(std::panic::AssertUnwindSafe(|| stam::verif_hooks_csv::verif_csv_row_target(arr))) {
+                    Err(m) => format!("panic:{}", m.chars().take(60).collect::<String>()),
+                    Ok(Err(_)) => "err".to_string(),
+                    Ok(Ok(sb)) => match cr_builder(&sb) { Some(t) => format!("ok {}", t), None => "unrenderable".to_string() },
+                };
+                if got == "unrenderable" { continue; }
+                if got.starts_with("panic") { rep.fail("panic", "C15/row-reader-panics", ctx.clone(), "a target or an error", &format!("{} on cells {:?}", got, c)); continue; }
+                rep.count("csv:read-vs-model");
+                rep.model_case_ctx(ctx.clone(), vec![format!("cr read {}", c.iter().map(|x| hex(x)).collect::<Vec<_>>().join(" "))], vec![got], "csv-read");
+            }
         }
         // the data cells: (dataset, data identifier) pairs in the annotation's order
         let items: Vec<(String, String)> = a.data().map(|d| (d.set().id().map(|s| s.to_string()).unwrap_or_else(|| format!("!S{}", d.set().handle().as_usize())), d.id().map(|s| s.to_string()).unwrap_or_else(|| format!("!D{}", d.handle().as_usize())))).collect();
